@@ -26,6 +26,36 @@ PROP = 'C05'
 PKG = 'app'
 
 TYPES = [('int', '1'), ('str', "'x'"), ('float', '1.5'), ('bool', 'True')]
+CUT = 'err:RunDoesNotEnd'		# status of a real run that was cut by the per-run budget (tproj.run_budget)
+
+# real-code exceptions that escaped while a case was built or observed (rule 14: an outcome, never a harness crash), and the
+# wall deadlines of the loops (a deadline only skips generated cases and counts them)
+CRASHES: list[Finding] = []
+DEADLINES: list[tproj.Deadline] = []
+
+
+def crashed(where: str, e: BaseException, replay: dict[str, Any]) -> None:
+	tb = traceback.extract_tb(e.__traceback__)
+	real = [f for f in tb if 'rogw' in f.filename]
+	at = f'{os.path.basename(real[-1].filename)}:{real[-1].lineno} {real[-1].name}' if real else (f'{os.path.basename(tb[-1].filename)}:{tb[-1].lineno}' if tb else '?')
+	CRASHES.append(Finding(key=f'unexpected-exception:{where}:{common.exc_enum(e)}', what=f'{where}: {type(e).__name__}: {e} (raised at {at})'[:400], replay={**replay, 'where': where, 'at': at}))
+
+
+def new_deadline(name: str, seconds: float) -> tproj.Deadline:
+	d = tproj.Deadline(name, seconds)
+	DEADLINES.append(d)
+	return d
+
+
+def search_crashes(ctx: Ctx) -> SearchResult:
+	res = SearchResult('no call of the real code made while building or observing a case raises outside the observed outcome classes')
+	res.cases = len(CRASHES)
+	res.findings = list(CRASHES)
+	hist: dict[str, int] = {}
+	for f in CRASHES:
+		hist[f.key] = hist.get(f.key, 0) + 1
+	res.histogram = hist
+	return res
 
 # ---------------------------------------------------------------------------------------------
 # generated module graphs
@@ -144,8 +174,11 @@ class LibInfo:
 		try:
 			app = App(TranspileApp.definitions(Args(['-c', 'config.yml'])))
 			mods = app.resolve(Modules)
-			with tproj.AUDIT.watch(proj.cache_dir) as events:
-				mods.libralies()
+			try:
+				with tproj.AUDIT.watch(proj.cache_dir) as events, tproj.run_budget():
+					mods.libralies()
+			except tproj.RunBudgetExceeded:
+				raise RuntimeError('Modules.libralies() with an empty cache directory does not end within the run budget') from None
 			base = proj.cache_dir + os.sep
 			self.preload_events = [(k, p[len(base):] if p.startswith(base) else p) for k, p in events]
 			sources = app.resolve(ISourceLoader)
@@ -242,6 +275,8 @@ def error_kind(res: tproj.RunResult) -> str:
 	e = res.exc
 	if e is None:
 		return 'ok'
+	if isinstance(e, tproj.RunDoesNotEnd):
+		return CUT
 	chain: list[BaseException] = []
 	cur: BaseException | None = e
 	while cur is not None and cur not in chain:
@@ -288,8 +323,13 @@ class RealCase:
 		self.last_config_op = ''
 		self.proj = tproj.Project(ctx.tmpdir('tranp-c05-'), package=PKG)
 		self.proj.tick = lib.first_project_mtime
+		# every virtual mtime (tick) a module's file has had, in order; the last one is the current one
+		self.ticks: dict[str, list[int]] = {}
+		# (tick, source text) of a module when a run last WROTE its syntax-tree file
+		self.tree_written: dict[str, tuple[int, str]] = {}
 		for m in self.graph:
 			self.proj.write_module(m, module_source(m, self.graph[m], self.variants[m]))
+			self.ticks[m] = [self.proj.tick]
 		if seeded:
 			lib.seed(self.proj)
 		self.seeded = seeded
@@ -332,10 +372,34 @@ class RealCase:
 			m, v = op[1], int(op[2])
 			self.variants[m] = v
 			self.proj.write_module(m, module_source(m, self.graph[m], v))
+			self.ticks[m].append(self.proj.tick)
 			return f"edit\t{PKG}/{m.replace('.', '/')}\t{hx(self.toy_source(m))}", None
+		if kind == 'editat':
+			# content AND mtime change, but the new mtime is one that was in use before: `own:<i>` = the i-th mtime this module has
+			# had (negative: counted from the current one), `mod:<x>` = the current mtime of module x. (Real-code searches only: the
+			# model's edits draw fresh mtimes.) When the requested mtime is the module's current one the edit takes a fresh mtime.
+			m, v, spec = op[1], int(op[2]), op[3]
+			which, _, arg = spec.partition(':')
+			try:
+				tick = self.ticks[m][int(arg)] if which == 'own' else self.ticks[arg][-1]
+			except (IndexError, KeyError, ValueError):
+				tick = self.ticks[m][-1]
+			self.variants[m] = v
+			if tick == self.ticks[m][-1]:
+				self.proj.write_module(m, module_source(m, self.graph[m], v))
+				tick = self.proj.tick
+			else:
+				self.proj.write_module_at(m, module_source(m, self.graph[m], v), tick)
+			self.ticks[m].append(tick)
+			return f'editat\t{m}\t{tick}', None
 		if kind == 'run':
 			force = op[1] == '1'
 			res = self.proj.run(force=force, cache_enabled=self.enabled)
+			for k, p in res.events:
+				if k == 'w' and p.startswith(f'{PKG}/') and layer_of(p) == 'tree':
+					m = split_name(p)[0][len(PKG) + 1:].replace('/', '.')
+					if m in self.graph:
+						self.tree_written[m] = (self.ticks[m][-1], module_source(m, self.graph[m], self.variants[m]))
 			return f'run\t{op[1]}', res
 		if kind == 'clear':
 			self.proj.clear_cache()
@@ -492,13 +556,26 @@ def stream_cachefs(ctx: Ctx) -> Stream:
 	lib = lib_info(ctx)
 	cases = []
 	with ctx.timed('cachefs_real'):
+		dl = new_deadline('stream cachefs', ctx.scale(90, 600))
 		for rec in load_corpus():
 			if rec.get('stream') == 'cachefs':
-				cases.append(case_cachefs(ctx, rng, lib, 0, bool(rec.get('seeded', True)), corpus_ops=rec['ops'], shape=rec['shape'], variants=rec['variants']))
+				try:
+					cases.append(case_cachefs(ctx, rng, lib, 0, bool(rec.get('seeded', True)), corpus_ops=rec['ops'], shape=rec['shape'], variants=rec['variants']))
+				except common.InfraError:
+					raise
+				except Exception as e:  # noqa: BLE001 - rule 14
+					crashed('cachefs-stream', e, {'search': 'warm-cold', 'shape': rec['shape'], 'variants': rec['variants'], 'ops': rec['ops']})
 		n = ctx.scale(7, 48)
 		for i in range(n):
+			if dl.over(n - i):
+				break
 			seeded = (i % 5) != 0
-			cases.append(case_cachefs(ctx, rng, lib, ctx.scale(9, 16) if seeded else ctx.scale(5, 8), seeded))
+			try:
+				cases.append(case_cachefs(ctx, rng, lib, ctx.scale(9, 16) if seeded else ctx.scale(5, 8), seeded))
+			except common.InfraError:
+				raise
+			except Exception as e:  # noqa: BLE001 - rule 14
+				crashed('cachefs-stream', e, {'search': 'crash', 'stream': 'cachefs', 'seed': ctx.seed, 'case': i})
 	st = tproj.correspond_canon('cachefs', cases, 'cachefs', canon_lines, classify=lambda d: [d['shape'], *d['kinds']])
 	st.note = ('real TranspileApp in a temporary project (chain2/3/4, diamond, fan, vee graphs; library closure declared from the real '
 		'loader); ops edit/run/run -f/clear/delete/trunc/enable; observation per op: status, cache listing (digests renamed by first '
@@ -583,6 +660,14 @@ def diagnose_warm_cold(ctx: Ctx, lib: LibInfo, case: 'RealCase', pre: tproj.Proj
 	if rerun_without(lambda rel: rel.endswith('.json')) == cold:
 		if case.last_config_op == 'gswitch':
 			return 'tree-key-ignores-grammar-path', 'the configured grammar file changed (same mtime, other path): the cached trees of the other grammar are reused — the tree-cache identity does not cover the grammar path (regression of 9dfb5b4)'
+		same_gen = sorted(m for m, (tick, text) in case.tree_written.items() if tick == case.ticks[m][-1] and text != module_source(m, case.graph[m], case.variants[m]))
+		if same_gen:
+			return 'tree-stale:mtime-recurs-same-generation', (f'module(s) {same_gen}: the source was edited (content and mtime changed) and edited again to other content with the mtime it had when its '
+				'syntax-tree file was last written, with no store of that file in between — the tree cache is keyed by the source mtime, not by the content, so the file of the earlier content is served')
+		recurs = sorted(m for m in case.graph if case.ticks[m][-1] in case.ticks[m][:-1])
+		if recurs:
+			return 'tree-stale:older-generation-served', (f'module(s) {recurs} carry an mtime they had in an EARLIER generation (other content, a store of a newer generation in between): '
+				'the syntax-tree file of that older generation is still on disk and is served — older generations are not evicted when a newer one is stored')
 		return 'tree-stale', 'a cached syntax tree differs from a fresh parse'
 	return 'parser-stale', 'the cached parser differs from a fresh one'
 
@@ -640,13 +725,26 @@ def search_warm_cold(ctx: Ctx, only: list[tuple[str, dict[str, int], list[list[s
 		histories.append((shape, variants, [['run', '1'], ['edit', leaf, str(variants[leaf] + 24)], ['run', '1'], ['edit', leaf, str(variants[leaf])], ['run', '0']]))
 		histories.append(('chain2', {'a': 23, 'b': 23}, [['grammar'], ['run', '1'], ['gedit'], ['run', '1'], ['run', '0']]))
 		histories.append(('chain2', {'a': 23, 'b': 23}, [['grammar'], ['run', '1'], ['gswitch'], ['run', '1']]))
+		# recurring mtimes (a restored backup, `cp -p`, an extracted archive): a module returns to an mtime it had two generations ago
+		# with new content, a run (= a store of the newer generation) in between; and two modules exchange / share their mtimes
+		shape = rng.choice(['chain2', 'chain3', 'vee'])
+		graph = graph_shapes()[shape]
+		variants = {m: 20 + (1 + i) % 3 + 1 for i, m in enumerate(graph)}
+		leaf = [m for m in graph if not graph[m]][-1]
+		top = list(graph)[0]
+		vs = [str(20 + (variants[leaf] + k) % 4) for k in (1, 2)]
+		histories.append((shape, variants, [['run', '1'], ['edit', leaf, vs[0]], ['run', rng.choice(['0', '1'])], ['editat', leaf, vs[1], 'own:0'], ['run', '1']]))
+		histories.append((shape, variants, [['run', '1'], ['editat', top, str(20 + (variants[top] + 1) % 4), f'mod:{leaf}'], ['run', '1'], ['editat', leaf, vs[0], f'mod:{top}'], ['run', '0']]))
 	n_random = ctx.scale(5, 80) if only is None else 0
 	hist: dict[str, int] = {}
 	seen: set[str] = set()
 	budget_runs = ctx.scale(60, 400)
 	runs = 0
+	dl = new_deadline('search warm-cold', ctx.scale(120, 700))
 	for hi in range(len(histories) + n_random):
 		if runs >= budget_runs:
+			break
+		if only is None and dl.over(len(histories) + n_random - hi):
 			break
 		if hi < len(histories):
 			shape, variants, fixed_ops = histories[hi]
@@ -654,58 +752,102 @@ def search_warm_cold(ctx: Ctx, only: list[tuple[str, dict[str, int], list[list[s
 			shape = rng.choice(list(graph_shapes()))
 			variants = gen_variants(rng, graph_shapes()[shape])
 			fixed_ops = None
-		case = RealCase(ctx, lib, shape, variants, seeded=True, enabled=True)
-		snapshots: dict[str, dict[str, str]] = {}
 		ops_done: list[list[str]] = []
-		n_ops = len(fixed_ops) if fixed_ops is not None else ctx.scale(8, 14)
-		last_run = False
-		for i in range(n_ops):
-			if fixed_ops is not None:
-				op = fixed_ops[i]
-			else:
-				op = next_op(rng, case, allow_damage=False, allow_disable=False, last_was_run=last_run)
-				if i == 0:
-					op = ['run', '1']
-			ops_done.append(op)
-			last_run = op[0] == 'run'
-			if op[0] != 'run':
-				case.apply(op)
-				continue
-			force = op[1] == '1'
-			pre = case.proj.clone(ctx.tmpdir('tranp-c05-pre-'))
-			full_cold = rng.random() < 0.08
-			cold = cold_outcome(ctx, lib, pre, force, True, seeded=not full_cold)
-			_, r = case.apply(op)
-			assert r is not None
-			warm = outcome(case.proj, r)
-			runs += 2
-			res.cases += 1
-			seen.add(json.dumps([shape, variants, ops_done], sort_keys=True))
-			hist[f'{shape}:run{op[1]}'] = hist.get(f'{shape}:run{op[1]}', 0) + 1
-			current = {m: module_source(m, case.graph[m], case.variants[m]) for m in case.graph}
-			for rel in case.proj.cache_files():
-				if '-symbols-' in rel and rel not in snapshots:
-					snapshots[rel] = current
-			if warm != cold:
-				confirm = cold_outcome(ctx, lib, pre, force, True, seeded=False)
-				if confirm != cold:
-					raise common.InfraError('C05: library-seeded cold run differs from the empty-cache cold run')
-				key, why = diagnose_warm_cold(ctx, lib, case, pre, force, cold, snapshots, {p for k, p in r.events if k == 'r'})
-				diff = diff_modules(warm[1], cold[1])
-				detail = first_diff_line(warm[1].get(diff[0], b''), cold[1].get(diff[0], b'')) if diff else f'status {warm[0]} vs {cold[0]}'
-				res.findings.append(Finding(key=key, what=f'warm output differs from cold output in {diff or "status"}: {detail}; {why}',
-					replay={'search': 'warm-cold', 'shape': shape, 'variants': variants, 'ops': ops_done}))
-				hist[f'finding:{key}'] = hist.get(f'finding:{key}', 0) + 1
+		try:
+			case = RealCase(ctx, lib, shape, variants, seeded=True, enabled=True)
+			snapshots: dict[str, dict[str, str]] = {}
+			n_ops = len(fixed_ops) if fixed_ops is not None else ctx.scale(8, 14)
+			last_run = False
+			for i in range(n_ops):
+				if fixed_ops is not None:
+					op = fixed_ops[i]
+				else:
+					op = next_op(rng, case, allow_damage=False, allow_disable=False, last_was_run=last_run)
+					if i == 0:
+						op = ['run', '1']
+				ops_done.append(op)
+				last_run = op[0] == 'run'
+				if op[0] != 'run':
+					case.apply(op)
+					continue
+				force = op[1] == '1'
+				pre = case.proj.clone(ctx.tmpdir('tranp-c05-pre-'))
+				full_cold = rng.random() < 0.08
+				cold = cold_outcome(ctx, lib, pre, force, True, seeded=not full_cold)
+				_, r = case.apply(op)
+				assert r is not None
+				warm = outcome(case.proj, r)
+				runs += 2
+				res.cases += 1
+				seen.add(json.dumps([shape, variants, ops_done], sort_keys=True))
+				hist[f'{shape}:run{op[1]}'] = hist.get(f'{shape}:run{op[1]}', 0) + 1
+				current = {m: module_source(m, case.graph[m], case.variants[m]) for m in case.graph}
+				for rel in case.proj.cache_files():
+					if '-symbols-' in rel and rel not in snapshots:
+						snapshots[rel] = current
+				kept = kept_generations(case.proj, r.events) if warm[0] == 'ok' else []
+				if kept:
+					hist['finding:old-generation-kept'] = hist.get('finding:old-generation-kept', 0) + 1
+					res.findings.append(Finding(key=f'old-generation-kept:{layer_of(kept[0][0])}', what=f'the run stored {kept[0][0]} and left the older generation(s) {kept[0][1]} of the same cache entry on disk '
+						'(a store evicts the older files of its entry: at most one generation per module and kind)', replay={'search': 'warm-cold', 'shape': shape, 'variants': variants, 'ops': ops_done}))
+					shutil.rmtree(pre.root, ignore_errors=True)
+					break
+				if CUT in (warm[0], cold[0]):
+					# a run that does not end: both alike = outside this property (counted); one of them = the outputs differ
+					side = 'both' if warm[0] == cold[0] else ('warm' if warm[0] == CUT else 'cold')
+					hist[f'run-cut:{side}'] = hist.get(f'run-cut:{side}', 0) + 1
+					if side != 'both':
+						res.findings.append(Finding(key=f'run-does-not-end:{side}', what=f'the {side} run does not end within the per-run budget ({tproj.RUN_CPU_S:.0f} s CPU), the other one ends with {cold[0] if side == "warm" else warm[0]}',
+							replay={'search': 'warm-cold', 'shape': shape, 'variants': variants, 'ops': ops_done}))
+					shutil.rmtree(pre.root, ignore_errors=True)
+					break
+				if warm != cold:
+					confirm = cold_outcome(ctx, lib, pre, force, True, seeded=False)
+					if confirm != cold:
+						# the memoised library files are themselves cache files an earlier run left behind: they change the output
+						diff = diff_modules(cold[1], confirm[1])
+						detail = first_diff_line(cold[1].get(diff[0], b''), confirm[1].get(diff[0], b'')) if diff else f'status {cold[0]} vs {confirm[0]}'
+						res.findings.append(Finding(key='library-cache-changes-output', what=f'the run over a cache directory holding only the files of an earlier empty-cache Modules.libralies() differs from the run over an empty cache directory in {diff or "status"}: {detail}',
+							replay={'search': 'warm-cold', 'shape': shape, 'variants': variants, 'ops': ops_done}))
+						hist['finding:library-cache-changes-output'] = hist.get('finding:library-cache-changes-output', 0) + 1
+						shutil.rmtree(pre.root, ignore_errors=True)
+						break
+					key, why = diagnose_warm_cold(ctx, lib, case, pre, force, cold, snapshots, {p for k, p in r.events if k == 'r'})
+					diff = diff_modules(warm[1], cold[1])
+					detail = first_diff_line(warm[1].get(diff[0], b''), cold[1].get(diff[0], b'')) if diff else f'status {warm[0]} vs {cold[0]}'
+					res.findings.append(Finding(key=key, what=f'warm output differs from cold output in {diff or "status"}: {detail}; {why}',
+						replay={'search': 'warm-cold', 'shape': shape, 'variants': variants, 'ops': ops_done}))
+					hist[f'finding:{key}'] = hist.get(f'finding:{key}', 0) + 1
+					shutil.rmtree(pre.root, ignore_errors=True)
+					break
 				shutil.rmtree(pre.root, ignore_errors=True)
-				break
-			shutil.rmtree(pre.root, ignore_errors=True)
-		if len(res.samples) < 2:
-			res.samples.append({'shape': shape, 'variants': variants, 'ops': ops_done})
-		shutil.rmtree(case.proj.root, ignore_errors=True)
+			if len(res.samples) < 2:
+				res.samples.append({'shape': shape, 'variants': variants, 'ops': ops_done})
+			shutil.rmtree(case.proj.root, ignore_errors=True)
+		except common.InfraError:
+			raise
+		except Exception as e:  # noqa: BLE001 - rule 14: an exception of the real code inside the oracle is an outcome
+			crashed('warm-cold-search', e, {'search': 'warm-cold', 'shape': shape, 'variants': variants, 'ops': ops_done})
+			runs += 2
 	res.distinct = len(seen)
 	res.histogram = hist
 	res.note = 'cold = clone of the project state with an empty cache directory (library files re-created by an empty-cache Modules.libralies() are memoised; 8% of the comparisons and every finding use a truly empty directory)'
 	return res
+
+
+def kept_generations(proj: tproj.Project, events: list[tuple[str, str]]) -> list[tuple[str, list[str]]]:
+	"""Per cache file a run WROTE: the other files of the same (module, kind) — same name up to the digest — that are still on disk
+	after the run. A store removes the older generations first (cache.py `find_oldest`, persistent.py `store`), so there are none."""
+	listing = proj.cache_files()
+	out: list[tuple[str, list[str]]] = []
+	for p in sorted({p for k, p in events if k == 'w'}):
+		stem, dig, ext = split_name(p)
+		if not dig or p not in listing:
+			continue
+		others = [q for q in listing if q != p and split_name(q)[0] == stem and split_name(q)[2] == ext and split_name(q)[1]]
+		if others:
+			out.append((p, others))
+	return out
 
 
 def layer_of(rel: str) -> str:
@@ -725,11 +867,15 @@ def search_truncation(ctx: Ctx, only: dict[str, Any] | None = None) -> SearchRes
 	shapes = ['chain3', 'diamond'] if not ctx.thorough else ['chain3', 'diamond', 'siblings2', *rng.sample([x for x in graph_shapes() if x not in ('chain3', 'diamond', 'siblings2')], 2)]
 	if only is not None:
 		shapes = [only['shape']] if only.get('search') == 'truncation-loader' else []
-	for shape in shapes:
+	dl = new_deadline('search truncation', ctx.scale(75, 500))
+
+	def loader_level(shape: str) -> None:
 		case = RealCase(ctx, lib, shape, only['variants'] if only else gen_variants(rng, graph_shapes()[shape]), seeded=True)
 		case.apply(['run', '1'])
 		for rel in case.proj.cache_files():
 			if only is not None and layer_of(rel) != layer_of(only['file']):
+				continue
+			if only is None and dl.over():
 				continue
 			with open(os.path.join(case.proj.cache_dir, rel), 'rb') as f:
 				data = f.read()
@@ -743,32 +889,44 @@ def search_truncation(ctx: Ctx, only: dict[str, Any] | None = None) -> SearchRes
 				offsets = sorted({0, 1, len(data) - 1, len(data) - 2, *(rng.randrange(len(data)) for _ in range(ctx.scale(150, 3000)))})
 			for k in offsets:
 				prefix = data[:k]
-				accepted = False
+				accepted = ''
 				try:
-					if layer == 'tree':
-						EntryStored.load(io.BytesIO(prefix))
-					elif layer == 'symbols':
-						json.loads(prefix.decode('utf-8'))
-					else:
-						LarkStored.load(io.BytesIO(prefix))
-					accepted = True
+					with tproj.run_budget(20.0):
+						if layer == 'tree':
+							EntryStored.load(io.BytesIO(prefix))
+						elif layer == 'symbols':
+							json.loads(prefix.decode('utf-8'))
+						else:
+							LarkStored.load(io.BytesIO(prefix))
+					accepted = 'are accepted by the loader'
+				except tproj.RunBudgetExceeded:
+					accepted = 'make the loader run without end (20 s CPU budget)'
 				except Exception:  # noqa: BLE001 - rejection is the expected outcome
 					pass
 				res.cases += 1
 				if accepted:
-					res.findings.append(Finding(key=f'prefix-decodes:{layer}', what=f'the first {k} of {len(data)} bytes of {rel} are accepted by the loader',
+					res.findings.append(Finding(key=f'prefix-decodes:{layer}', what=f'the first {k} of {len(data)} bytes of {rel} {accepted}',
 						replay={'search': 'truncation-loader', 'shape': shape, 'variants': case.variants, 'file': rel, 'k': k}))
 					break
 			hist[f'loader:{layer}'] = hist.get(f'loader:{layer}', 0) + len(offsets)
 			seen.add(f'{shape}:{rel}')
 		shutil.rmtree(case.proj.root, ignore_errors=True)
 
+	for shape in shapes:
+		try:
+			loader_level(shape)
+		except common.InfraError:
+			raise
+		except Exception as e:  # noqa: BLE001 - rule 14
+			crashed('truncation-search', e, {'search': 'crash', 'oracle': 'truncation-loader', 'seed': ctx.seed, 'shape': shape})
+
 	# (2) whole runs over a damaged cache
 	n_states = ctx.scale(2, 4)
 	per_state = ctx.scale(10, 40)
 	if only is not None:
 		n_states = 1 if only.get('search') == 'truncation-run' else 0
-	for si in range(n_states):
+
+	def run_level(si: int) -> None:
 		shape = only['shape'] if only else rng.choice(['chain2', 'chain3'] if not ctx.thorough else list(graph_shapes()))
 		case = RealCase(ctx, lib, shape, only['start_variants'] if only else gen_variants(rng, graph_shapes()[shape]), seeded=True)
 		start_variants = dict(case.variants)
@@ -791,12 +949,15 @@ def search_truncation(ctx: Ctx, only: dict[str, Any] | None = None) -> SearchRes
 				if rel.startswith(f'{PKG}/') and sizes[rel] <= 4096:
 					targets.extend((rel, k) for k in range(0, sizes[rel], 23))
 		for _ in range(per_state if only is None else 0):
-			rel = rng.choice(files if rng.random() < 0.4 else [f for f in files if f.startswith(f'{PKG}/')])
-			targets.append((rel, rng.choice([0, 1, sizes[rel] - 1, sizes[rel] - 2, rng.randrange(sizes[rel])])))
+			own = [f for f in files if f.startswith(f'{PKG}/')]
+			rel = rng.choice(files if rng.random() < 0.4 or not own else own)
+			targets.append((rel, rng.choice([0, 1, sizes[rel] - 1, sizes[rel] - 2, rng.randrange(max(sizes[rel], 1))])))
 		if only is not None:
 			# digests are reproducible (virtual mtimes, same contents): the recorded file name names the same file
 			targets = [(only['file'], int(only['k']))] if only['file'] in sizes else []
-		for rel, k in targets:
+		for ti, (rel, k) in enumerate(targets):
+			if only is None and dl.over(len(targets) - ti):
+				break
 			k = max(0, min(k, sizes[rel] - 1))
 			p = case.proj.clone(ctx.tmpdir('tranp-c05-trunc-'))
 			path = os.path.join(p.cache_dir, rel)
@@ -808,16 +969,27 @@ def search_truncation(ctx: Ctx, only: dict[str, Any] | None = None) -> SearchRes
 			shutil.rmtree(p.root, ignore_errors=True)
 			res.cases += 1
 			layer = layer_of(rel)
-			tag = 'fails' if got[0] != 'ok' else 'same-output'
+			tag = 'hangs' if got[0] == CUT else ('fails' if got[0] != 'ok' else 'same-output')
 			hist[f'run:{layer}:{tag}'] = hist.get(f'run:{layer}:{tag}', 0) + 1
 			seen.add(f'{shape}:{rel}:{k}')
+			replay = {'search': 'truncation-run', 'shape': shape, 'start_variants': start_variants, 'prep': prep, 'file': rel, 'k': k}
+			if got[0] == CUT and CUT not in (cold[0], undamaged[0]):
+				res.findings.append(Finding(key=f'truncated-file-hangs:{layer}', what=f'run over {rel} cut at byte {k}/{sizes[rel]} neither fails nor rebuilds: it does not end within the per-run budget ({tproj.RUN_CPU_S:.0f} s CPU)', replay=replay))
+				break
 			if got[0] == 'ok' and got != cold and got != undamaged:
-				res.findings.append(Finding(key=f'truncated-file-accepted:{layer}', what=f'run over {rel} cut at byte {k}/{sizes[rel]} succeeds with output different from the cold run and from the run over the undamaged cache',
-					replay={'search': 'truncation-run', 'shape': shape, 'start_variants': start_variants, 'prep': prep, 'file': rel, 'k': k}))
+				res.findings.append(Finding(key=f'truncated-file-accepted:{layer}', what=f'run over {rel} cut at byte {k}/{sizes[rel]} succeeds with output different from the cold run and from the run over the undamaged cache', replay=replay))
 				break
 		if len(res.samples) < 2:
 			res.samples.append({'shape': shape, 'files': len(files), 'truncations': len(targets)})
 		shutil.rmtree(case.proj.root, ignore_errors=True)
+
+	for si in range(n_states):
+		try:
+			run_level(si)
+		except common.InfraError:
+			raise
+		except Exception as e:  # noqa: BLE001 - rule 14
+			crashed('truncation-search', e, {'search': 'crash', 'oracle': 'truncation-run', 'seed': ctx.seed, 'state': si})
 	res.distinct = len(seen)
 	res.histogram = hist
 	return res
@@ -844,7 +1016,9 @@ def search_disabled(ctx: Ctx, only: list[tuple[str, dict[str, int], list[list[st
 				ops.append(['edit', rng.choice(list(graph_shapes()[shape])), str(rng.randrange(N_VARIANTS))])
 			ops.append(['run', rng.choice(['0', '1'])])
 		plans.append((shape, gen_variants(rng, graph_shapes()[shape]), ops))
-	for shape, variants, ops in plans:
+	dl = new_deadline('search disabled', ctx.scale(60, 400))
+
+	def one(shape: str, variants: dict[str, int], ops: list[list[str]]) -> None:
 		case = RealCase(ctx, lib, shape, variants, seeded=False, enabled=True)
 		done: list[list[str]] = []
 		for op in ops:
@@ -885,6 +1059,16 @@ def search_disabled(ctx: Ctx, only: list[tuple[str, dict[str, int], list[list[st
 			if res.findings and res.findings[-1].replay.get('shape') == shape and res.findings[-1].replay.get('variants') == variants:
 				break
 		shutil.rmtree(case.proj.root, ignore_errors=True)
+
+	for pi, (shape, variants, ops) in enumerate(plans):
+		if only is None and dl.over(len(plans) - pi):
+			break
+		try:
+			one(shape, variants, ops)
+		except common.InfraError:
+			raise
+		except Exception as e:  # noqa: BLE001 - rule 14
+			crashed('disabled-search', e, {'search': 'disabled', 'shape': shape, 'variants': variants, 'ops': ops})
 	res.distinct = len(seen)
 	res.histogram = hist
 	return res
@@ -957,6 +1141,9 @@ def run(ctx: Ctx) -> int:
 			streams = [stream_cachefs(ctx)]
 		with ctx.timed('search'):
 			searches = [search_warm_cold(ctx), search_truncation(ctx), search_disabled(ctx)]
+			searches.append(search_crashes(ctx))
+		ctx.notes.extend(n for n in (d.note() for d in DEADLINES) if n)
+		ctx.notes.extend(tproj.budget_notes())
 	return common.finish(ctx, proof, streams, searches, translate_ok=translate_ok, translate_msg=translate_msg, statements=STATEMENTS,
 		partial={
 			'sentence 1 (warm output = cold output)': 'proved on the model: output_warm_cold (rendered text, failure status, loaded modules, trees, tables equal) for acyclic import graphs, histories without interrupted write / grammar change; tree_key, symbols also for histories with trunc ops (per module, when both runs succeed)',
@@ -984,6 +1171,7 @@ def replay(ctx: Ctx, path: str) -> int:
 	inp = rec.get('input') or {}
 	kind = inp.get('search')
 	if rec.get('kind') != 'failing-input' or kind not in ('warm-cold', 'disabled', 'truncation-run', 'truncation-loader'):
+		# (also the `crash` records: an unexpected exception of the real code while a generated case was built — the whole check again)
 		return run(Ctx(PROP, rec.get('tier', 'quick'), int(rec.get('seed', 0))))
 	print(f"replay: {kind} {json.dumps(inp)[:600]}")
 	if kind == 'warm-cold':
